@@ -267,6 +267,21 @@ mut("c18-withtlsconfig-ignored", ["C18"], "server.go",
 mut("c18-directory-mtls-option-dropped", ["C18"], "testdirectory/directory.go",
     "\tserverTLSConfig, clientTLSConfig := GetTLSConfig(t, opt...)\n", "\tserverTLSConfig, clientTLSConfig := GetTLSConfig(t, opt...)\n\tserverTLSConfig.ClientAuth = tls.RequestClientCert\n")
 
+# ---- C12 -------------------------------------------------------------------
+mut("c12-connwg-done-before-close", ["C12"], "server.go",
+    "\t\t\t\terr := conn.close()\n", "\t\t\t\ts.connWg.Done()\n\t\t\t\ts.connWg.Add(1)\n\t\t\t\terr := conn.close()\n")
+mut("c12-connwg-done-before-onclose", ["C12"], "server.go",
+    "\t\t\t\tif s.onCloseHandler != nil {\n\t\t\t\t\ts.onCloseHandler(localConnID)\n\t\t\t\t}",
+    "\t\t\t\tif s.onCloseHandler != nil {\n\t\t\t\t\tgo s.onCloseHandler(localConnID)\n\t\t\t\t}")
+mut("c12-connwg-wait-removed", ["C12"], "server.go",
+    "\ts.connWg.Wait()\n", "")
+mut("c12-listener-not-closed-when-already-cancelled", ["C12"], "server.go",
+    "\t\t\t_ = s.listener.Close()\n\t\t\treturn nil", "\t\t\treturn nil")
+mut("c12-second-stop-errors", ["C12"], "server.go",
+    "case !strings.Contains(err.Error(), \"use of closed network connection\"):", "case true:")
+mut("c12-stop-skips-wait-when-listener-already-closed", ["C12"], "server.go",
+    "\t\t\tdefault:\n\t\t\t\ts.logger.Debug(\"listener already closed\")", "\t\t\tdefault:\n\t\t\t\ts.logger.Debug(\"listener already closed\")\n\t\t\t\treturn nil")
+
 # ---- C14 -------------------------------------------------------------------
 mut("c14-managedsait-criticality-dropped-on-decode", ["C14", "C01"], "control.go",
     "return NewControlManageDsaIT(WithCriticality(Criticality))", "return NewControlManageDsaIT()")
